@@ -176,6 +176,12 @@ func (p *Pollard) GetHash(pos uint64) Hash {
 // getHash is a wrapper around getNode. Returns an empty hash if the hash for
 // the given position couldn't be read.
 func (p *Pollard) getHash(pos uint64) Hash {
+	// Positions that are outside of the forest would otherwise be read as
+	// if they were a position inside of a smaller tree.
+	if !inForest(pos, p.NumLeaves, TreeRows(p.NumLeaves)) {
+		return empty
+	}
+
 	n, _, _, err := p.getNode(pos)
 	if err != nil || n == nil {
 		return empty
